@@ -88,16 +88,21 @@ def scriptWalletSpk (t : EmbedType) (order : KeyOrder) (tmpl : List Cmd) (b i : 
     | .p2wsh => p2wsh E s
     | .p2shP2wsh => p2sh E (p2wsh E s)
 
-/-- `RangedWallet.position_of` over a wallet's own derivation (branches 0 and 1). -/
-def walletPositionOf (spk : Nat → Nat → Option Bytes) (branches : List Nat) (s : Bytes) (last : Nat) : Option (Nat × Nat) :=
-  Scan.positionOf spk (some s) last branches
+/-- `RangedWallet.position_of` over a wallet's own derivation: the scan of `Model/C14/Scan.lean` with the
+    raise mirrored (outer `none` = the BTClibValueError of a position the wallet cannot derive, reached
+    before any match). -/
+def walletPositionOf (spk : Nat → Nat → Option Bytes) (branches : List Nat) (s : Bytes) (last : Nat) :
+    Option (Option (Nat × Nat)) :=
+  Scan.scanE (fun b i => (spk b i).map fun t => decide (t = s)) (fun _ => last) branches
 
-/-- `DescriptorWallet.position_of`: one `index_of` per chain. -/
-def descWalletPositionOf (net : String) (prv : PrvKeys) (chains : List D) (s : Bytes) (last : Nat) : Option (Nat × Nat) :=
-  Scan.positionOfDesc (fun (b : Nat) i => match chains[b]? with
-      | some d => (scriptPubKeys E net prv d i).getD []
-      | none => [])
-    (fun b => match chains[b]? with | some d => d.isRanged | none => false) s last (List.range chains.length)
+/-- `DescriptorWallet.position_of`: one `index_of` per chain (index 0 only for a chain that is not ranged). -/
+def descWalletPositionOf (net : String) (prv : PrvKeys) (chains : List D) (s : Bytes) (last : Nat) :
+    Option (Option (Nat × Nat)) :=
+  Scan.scanE (fun (b : Nat) i => match chains[b]? with
+      | some d => (scriptPubKeys E net prv d i).map fun l => decide (s ∈ l)
+      | none => some false)
+    (fun b => match chains[b]? with | some d => (if d.isRanged then last else 0) | none => 0)
+    (List.range chains.length)
 
 end
 end Btc.Desc
